@@ -72,7 +72,9 @@ PROPS = {
               'panic is recorded exactly when the index value is not below the number of elements; the same for the two checks of array element '
               'assignment (the Assign::Array arm and the nested-access arm of VarAssign in TypedStmt::compile, lifted as methods of a stand-in '
               'for TypedStmt because they read self.meta). compile_block and the plain for loop (ForEachLoop arm) are proved to keep the induction '
-              'hypothesis over all their statements / iterations. Let statements, function calls and for-join loops are outside '
+              'hypothesis over all their statements / iterations; the per-pair closure of the for-join loop (process_binding, lifted) starts from the '
+              'record before this pair and leaves it untouched where the pair is not joined (a non-joined iteration is silent). Let statements, '
+              'function calls and the merge network of for-join loops (compile_bitonic_merge) are outside '
               'every contract; a bounded differential search over operation trees and source programs on the real code stands in for them '
               'and for build/EvalPanic layout (labelled bounded).',
         note='Trusted: core builder contracts are proved in unit builder (run as part of this check); vstd specs of HashSet/arrays; '
